@@ -10,6 +10,7 @@ VLen  == [v \in ValsT |-> CASE v = "vE" -> 0 [] v = "v1" -> 3 [] v = "v70k" -> 7
 H2    == {"h1", "h2"}
 H3    == {"h1", "h2", "h3"}
 HdrQ  == {"hdDef", "hdFull"}
+HL    == [h \in HdrQ |-> IF h = "hdDef" THEN 0 ELSE 25]
 DevNone == {}
 DevPhantom == {"PhantomToc"}
 DevStale == {"StaleReopen"}
